@@ -29,6 +29,7 @@ func C04(c *core.Ctx) {
 		return
 	}
 	checkSamWorkerStateless(c, tabs, "R8")
+	checkFastaWorkerStateless(c, tabs, "R8")
 	if dict, ok := codonDict(c, ev0, "R1"); ok {
 		checkCodonDict(c, "R1", dict)
 	}
@@ -66,8 +67,8 @@ func c04Constructed(c *core.Ctx, tabs *Tables) {
 			}
 			ps := locPositions(f.location)
 			strand := 1
-			if len(ps) > 1 && ps[0] > ps[len(ps)-1] {
-				strand = -1
+			if strings.Contains(f.location, "complement(") {
+				strand = -1 // what the location says; the order of the positions is no evidence (origin-spanning genes)
 			}
 			if f.codonStart > 1 {
 				ps = ps[f.codonStart-1:]
@@ -231,7 +232,7 @@ func locPositions(loc string) []int {
 
 func gbTranslation(f gbFeature, ref string) string {
 	ps := locPositions(f.location)
-	rev := len(ps) > 1 && ps[0] > ps[len(ps)-1]
+	rev := strings.Contains(f.location, "complement(") // the strand is what the location says, not the order of its positions (a gene spanning the origin is join(16..21,1..6), forward)
 	if f.codonStart > 1 {
 		ps = ps[f.codonStart-1:]
 	}
@@ -301,6 +302,12 @@ func annoCases(c *core.Ctx) []annoCase {
 		{name: "reverse joined partial gene starting in frame 3",
 			gff: []*eval.StructVal{mkGFFFeature(c, "CDS", 2, 8, "-", 0, A("ID", "c1", "Name", "g1")), mkGFFFeature(c, "CDS", 14, 20, "-", 2, A("ID", "c1", "Name", "g1"))},
 			gb:  []gbFeature{{"CDS", "complement(join(2..8,14..20))", "g1", 3}}},
+		{name: "gene spanning the origin of a circular genome, rows listed 5' to 3'",
+			gff: []*eval.StructVal{mkGFFFeature(c, "CDS", 16, 21, "+", 0, A("ID", "c1", "Name", "g1")), mkGFFFeature(c, "CDS", 1, 6, "+", 0, A("ID", "c1", "Name", "g1"))},
+			gb:  []gbFeature{{"CDS", "join(16..21,1..6)", "g1", 1}}},
+		{name: "reverse-strand gene spanning the origin, rows listed 3' to 5' as for any reverse gene",
+			gff: []*eval.StructVal{mkGFFFeature(c, "CDS", 16, 21, "-", 0, A("ID", "c1", "Name", "g1")), mkGFFFeature(c, "CDS", 1, 6, "-", 0, A("ID", "c1", "Name", "g1"))},
+			gb:  []gbFeature{{"CDS", "complement(join(16..21,1..6))", "g1", 1}}},
 		{name: "gene plus non-CDS features",
 			gff: []*eval.StructVal{mkGFFFeature(c, "gene", 1, 24, "+", 0, A("ID", "gene1", "Name", "g1")), mkGFFFeature(c, "CDS", 4, 12, "+", 0, A("ID", "c1", "Name", "g1"))},
 			gb:  []gbFeature{{"gene", "1..24", "g1", 0}, {"CDS", "4..12", "g1", 1}}},
@@ -547,6 +554,7 @@ func C05(c *core.Ctx) {
 		c.Ob("R1/sam-form/indels-of-record-groups", len(badSam) == 0, funcPos(c, "pkg/sam", "blockToSeqPair"), "%s", first(badSam, 3))
 	}
 	checkSamWorkerStateless(c, tabs, "R1")
+	c02WorkerBatches(c, "R1/sam-form/blockToPairwiseAlignment") // the rows of a query do not depend on the queries the worker built before
 	// gap code agreement
 	gapCodes := gapLiterals(c)
 	var badCodes []string
@@ -587,6 +595,7 @@ func C11(c *core.Ctx) {
 	c15Stdin(c)                                                                  // toPairAlign -o stdout | variants reads the pair from a stream: the same table as from a file
 	c16Structural(c)                                                             // the FASTA form is read back by the same readers, with the same line limit in each
 	c02Rows(c)                                                                   // sam variants reads the rows blockToPairwiseAlignment builds
+	c02Writer(c)                                                                 // what toPairAlign writes is those rows, whole, under every --wrap
 	checkArrivalOrderIndependence(c, "R8/reorder", "sam.writePairwiseAlignment") // the pair written is the pair of that query, whatever arrives meanwhile
 	checkCigarTables(c, "R7", func(t cigarTable) bool { return true })           // the toMultiAlign row and the toPairAlign pair come from tables that agree with the SAM specification
 	checkReferenceRecordName(c, "R6")
@@ -678,6 +687,7 @@ func C11(c *core.Ctx) {
 	c.Count("pairs_evaluated", n)
 	c.Ob("R1/workers-agree-on-every-pair", len(bad) == 0, samW.Pos(), "%s", first(bad, 3))
 	checkSamWorkerStateless(c, tabs, "R1")
+	checkFastaWorkerStateless(c, tabs, "R1")
 	c11Structure(c)
 }
 
@@ -739,4 +749,98 @@ func checkSamWorkerStateless(c *core.Ctx, tabs *Tables, rule string) {
 		}
 		c.Ob(rule+"/sam-worker/no-state-between-queries", len(badB) == 0, samW.Pos(), "%s", first(badB, 3))
 	}
+}
+
+// checkFastaWorkerStateless: several alignment rows through ONE activation of variants.getVariants give, for each row,
+// what that row gives alone (the worker keeps nothing from the rows it handled before; items already sent do not change).
+func checkFastaWorkerStateless(c *core.Ctx, tabs *Tables, rule string) {
+	key := rule + "/fasta-worker/no-state-between-records"
+	fasW := c.LookupFunc("pkg/variants", "getVariants")
+	off := c.LookupFunc("pkg/variants", "GetMSAOffsets")
+	recT := namedType(c, "pkg/fastaio", "EncodedFastaRecord")
+	if fasW == nil || off == nil || recT == nil {
+		c.Und(key, token.NoPos, "UNRESOLVED anchors variants.getVariants / GetMSAOffsets")
+		return
+	}
+	regions := variantRegionSets()[0]
+	// rows of one alignment: the same gapped reference row for all of them
+	byRef := map[string][]string{}
+	var refs []string
+	for _, pc := range variantPairs("quick") {
+		if _, seen := byRef[pc.ref]; !seen {
+			refs = append(refs, pc.ref)
+		}
+		byRef[pc.ref] = append(byRef[pc.ref], pc.qry)
+	}
+	sort.SliceStable(refs, func(i, j int) bool { return len(byRef[refs[i]]) > len(byRef[refs[j]]) })
+	mkRec := func(id string, idx int64, row string) *eval.StructVal {
+		r := absValue(recT, id, eval.K(0)).(*eval.StructVal)
+		r.F["ID"] = eval.S(id)
+		r.F["Description"] = eval.S(id)
+		r.F["Idx"] = eval.K(idx)
+		r.F["Seq"] = encodeRow(tabs, row)
+		return r
+	}
+	run := func(ref string, rows []string, first int) ([]string, error) {
+		ev := newEval(c)
+		ov, err := ev.CallFunc(off, encodeRow(tabs, ref))
+		if err != nil {
+			return nil, err
+		}
+		ot := ov.(eval.Tuple)
+		ungapped := strings.ReplaceAll(ref, "-", "")
+		var regs, inter, feed []eval.Value
+		for _, r := range regions {
+			regs = append(regs, mkRegion(c, r, ungapped))
+		}
+		for _, p := range intergenic(regions, len(ungapped)) {
+			inter = append(inter, eval.K(int64(p)))
+		}
+		for i, row := range rows {
+			feed = append(feed, mkRec(fmt.Sprintf("q%d", first+i), int64(first+i), row))
+		}
+		out, errs := &eval.ChanVal{Name: "out"}, &eval.ChanVal{Name: "err"}
+		if _, err := ev.CallFunc(fasW, mkRec("ref", 0, ref), eval.NewSlice(regs...), eval.NewSlice(inter...), ot[0], ot[1], &eval.ChanVal{Name: "in", Feed: feed}, out, errs); err != nil {
+			return nil, err
+		}
+		if len(out.Sent) != len(rows) || len(errs.Sent) > 0 {
+			return nil, fmt.Errorf("%d items, %d errors for %d rows", len(out.Sent), len(errs.Sent), len(rows))
+		}
+		var items []string
+		for _, v := range out.Sent { // read after the whole batch
+			items = append(items, eval.Show(v))
+		}
+		return items, nil
+	}
+	var bad []string
+	n := 0
+	for _, ref := range refs {
+		rows := byRef[ref]
+		if len(rows) < 3 || n >= 3 {
+			continue
+		}
+		n++
+		// a spread of the family: every seventh row, at most eight
+		var batch []string
+		for i := 0; i < len(rows) && len(batch) < 8; i += 7 {
+			batch = append(batch, rows[i])
+		}
+		got, err := run(ref, batch, 1)
+		if err != nil {
+			c.Und(key, fasW.Pos(), "cannot evaluate a batch: %v", err)
+			return
+		}
+		for i, row := range batch {
+			alone, err := run(ref, []string{row}, 1+i)
+			if err != nil {
+				c.Und(key, fasW.Pos(), "cannot evaluate a row: %v", err)
+				return
+			}
+			if got[i] != alone[0] {
+				bad = append(bad, fmt.Sprintf("row %s (reference row %s) as item %d of a batch through one worker gives %s; alone it gives %s", row, ref, i, firstN(got[i], 200), firstN(alone[0], 200)))
+			}
+		}
+	}
+	c.Count("fasta_worker_batches", n)
+	c.Ob(key, len(bad) == 0 && n > 0, fasW.Pos(), "%s", first(bad, 2))
 }
